@@ -1,5 +1,6 @@
 import MlodaVerif.Lemmas.SchedFail
 import MlodaVerif.Lemmas.PlanOK
+import MlodaVerif.Lemmas.PlanCore
 /-! # C04 (scheduler half) - every accepted plan can run to completion
 
 `WellRanked p` is "each prerequisite a step waits for is produced by some step of the plan and the wait-for relation is
@@ -91,6 +92,52 @@ theorem C04.wait_cycle_never_returns (p : Plan) (hd : DisjointOuts p) (hne : Non
 /-- the concrete two-group witness: plan [R → {r}], [{a, b} needs r, g], [{g, f} needs r, a] is rejected by `planOK` -/
 theorem C04.mutual_groups_witness :
     planOK [{ outs := [0], req := [] }, { outs := [1, 2], req := [0, 4] }, { outs := [4, 3], req := [0, 1] }] = false := by
+  decide
+
+/-! ### the link-free planner core (`PlanCore.planCore` = levels + required sets of `run_feature_group`) -/
+
+/-- the steps of the planner core partition the features: every feature uuid is the output of exactly one step -/
+theorem C04.planCore_partition (anc : Nat → List Nat) (buckets : List (List Nat)) (hnd : buckets.flatten.Nodup) :
+    DisjointOuts (PlanCore.planCore anc buckets) ∧ (allOuts (PlanCore.planCore anc buckets)).Perm buckets.flatten := by
+  have hp := PlanCore.allOuts_planCore_perm anc buckets
+  exact ⟨nodup_flatMap_disjoint _ (hp.nodup_iff.mpr hnd), hp⟩
+
+/-- no step of the planner core is empty (so `currently_running_step` never meets an empty set) -/
+theorem C04.planCore_nonempty (anc : Nat → List Nat) (buckets : List (List Nat)) (hne : ∀ b ∈ buckets, b ≠ []) :
+    NonemptyOuts (PlanCore.planCore anc buckets) := by
+  intro st hst
+  obtain ⟨b, hb, L, hL, rfl⟩ := PlanCore.mem_planCore hst
+  exact PlanCore.splitLevels_nonempty b anc (hne b hb) L hL
+
+/-- every step of the planner core waits for every ancestor - in particular every direct parent - of what it computes -/
+theorem C04.planCore_parentsCovered (anc parents : Nat → List Nat) (buckets : List (List Nat))
+    (hpar : ∀ f, ∀ a ∈ parents f, a ∈ anc f) : ParentsCovered (PlanCore.planCore anc buckets) parents := by
+  intro i st hst f hf a ha
+  obtain ⟨b, hb, L, hL, rfl⟩ := PlanCore.mem_planCore (List.mem_of_getElem? hst)
+  simp only [List.mem_eraseDups, List.mem_flatMap]
+  exact ⟨f, hf, hpar f a ha⟩
+
+/-- closed: if the ancestors of planned features are planned features, every required uuid is produced by a step -/
+theorem C04.planCore_closed (anc : Nat → List Nat) (buckets : List (List Nat))
+    (hcl : ∀ f ∈ buckets.flatten, ∀ a ∈ anc f, a ∈ buckets.flatten) :
+    ∀ st ∈ PlanCore.planCore anc buckets, ∀ u ∈ st.req, ∃ sj ∈ PlanCore.planCore anc buckets, u ∈ sj.outs := by
+  intro st hst u hu
+  obtain ⟨b, hb, L, hL, rfl⟩ := PlanCore.mem_planCore hst
+  simp only [List.mem_eraseDups, List.mem_flatMap] at hu
+  obtain ⟨f, hf, hua⟩ := hu
+  have hfb : f ∈ b := (PlanCore.splitLevels_cover b anc).mem_iff.mp (List.mem_flatten.mpr ⟨L, hL, hf⟩)
+  have hfin : f ∈ buckets.flatten := List.mem_flatten.mpr ⟨b, hb, hfb⟩
+  have hu' : u ∈ allOuts (PlanCore.planCore anc buckets) :=
+    (PlanCore.allOuts_planCore_perm anc buckets).mem_iff.mpr (hcl f hfin u hua)
+  simp only [allOuts, List.mem_flatMap] at hu'
+  exact hu'
+
+/-- PARTIAL: the planner core does *not* always yield an acyclic wait-for relation - `C04.mutual_groups_witness` is a
+plan it builds (buckets [[0],[1,2],[4,3]] with anc 1 = [0], 2 = [4,0], 4 = [0], 3 = [1,0]) -/
+theorem C04.planCore_builds_mutual_groups_witness :
+    let anc : Nat → List Nat := fun f => if f = 1 then [0] else if f = 2 then [0, 4] else if f = 4 then [0] else if f = 3 then [0, 1] else []
+    (PlanCore.planCore anc [[0], [1, 2], [4, 3]]).map (fun st => (st.outs, st.req)) = [([0], []), ([1, 2], [0, 4]), ([4, 3], [0, 1])] ∧
+      planOK (PlanCore.planCore anc [[0], [1, 2], [4, 3]]) = false := by
   decide
 
 /-- the empty plan is the excluded point of the termination theorem: `compute` never leaves its loop
